@@ -2445,8 +2445,14 @@ FROM (
             if ds:
                 # Normalize column order across all branches to prevent
                 # positional type mismatches in UNION ALL.
+                # The statement's output structure gives the order only when the union is
+                # the statement's result; nested inside another operator (rename, count,
+                # ...) the output has other components and the operand structure applies.
                 output_ds = self._get_output_dataset()
-                order_ds = output_ds if output_ds else ds
+                if output_ds and set(output_ds.components) == set(ds.components):
+                    order_ds = output_ds
+                else:
+                    order_ds = ds
                 col_order = list(order_ds.components.keys())
                 ordered_cols = ", ".join(quote_name(c) for c in col_order)
                 ordered_sqls = [f"SELECT {ordered_cols} FROM ({sql}) AS _ord" for sql in child_sqls]
